@@ -715,7 +715,7 @@ class FxBuilder(Builder):
                     onstack = onstack - fr.unroll[b][1]
                 else:
                     finals = {l: fr.state[l] for l in fr.loopvars.get(b, ()) if l in fr.state} if self.ai_mode else {}
-                    nodes.append(("backedge", b, Site(fn, b), finals))
+                    nodes.append(("backedge", b, Site(fn, b), finals, fr.id))
                     break
             # loop header: values assigned in the loop are unknown on entry - unless the loop iterates
             # over a literal array, in which case it is unrolled with concrete elements
